@@ -2,6 +2,7 @@ from strengths.units import *
 from strengths.rdsystem import RDSystem
 from strengths.rdengine import RDEngineBase
 from strengths.rdoutput import  RDTrajectory
+from strengths.rdscript import RDScript
 from strengths.rdspace import RDGridSpace, RDGraphSpace
 from strengths.typechecking import *
 
@@ -148,6 +149,10 @@ class LibRDEngine(RDEngineBase) :
         super(LibRDEngine, self).__init__(option, description)
 
     def setup(self, script) :
+        
+        # refuse anything else before the engine's current set-up is touched
+        if not isinstance(script, RDScript) :
+            raise TypeError("script must be an RDScript.")
         
         self._script = script.copy()
         self._simulation_unfinished = 1
